@@ -154,50 +154,15 @@ def ref_bdecode(data):
 _NOKEY = object()
 
 
-def _no_dict(v):
-    if isinstance(v, dict):
-        return False
-    if isinstance(v, list):
-        return all(_no_dict(x) for x in v)
-    return True
-
-
-def _flat_dict(v):
-    return isinstance(v, dict) and all(_no_dict(x) for x in v.values())
-
-
-def _pending(v):
-    """number of closing 'e' bytes lbry's decoder leaves unread after v (it returns the index OF a dict's 'e')"""
-    if isinstance(v, dict):
-        vals = list(v.values())
-        return 1 + (_pending(vals[-1]) if vals else 0)
-    if isinstance(v, list):
-        return _pending(v[-1]) if v else 0
-    return 0
-
-
-def _tail_ok(v):
-    """dictionaries (and lists ending in one) occur only as the LAST element / value of their container: the
-    shapes on which the dict-end index of lbry's decoder makes no difference (every protocol message is one)"""
-    if isinstance(v, dict):
-        vals = list(v.values())
-    elif isinstance(v, list):
-        vals = v
-    else:
-        return True
-    return all(_tail_ok(x) for x in vals) and all(_pending(x) == 0 for x in vals[:-1])
-
-
 def ref_header_broken(data):
-    """True when the datagram is canonical bencode (of a shape that does not depend on the decoder's dict-end
-    index, see _tail_ok) of a dictionary with integer keys that claims a packet type
+    """True when the datagram is canonical bencode of a dictionary with integer keys that claims a packet type
     but whose header is not that of a protocol message (type outside 0..2, an id missing, not bytes or of the
     wrong length, a required field of its class missing): such a datagram must be dropped"""
     try:
         d = ref_bdecode(data)
     except (RefError, ValueError):
         return False
-    if not isinstance(d, dict) or not d or not all(isinstance(k, int) for k in d) or not _tail_ok(d):
+    if not isinstance(d, dict) or not d or not all(isinstance(k, int) for k in d):
         return False
     t = d.get(0)
     if not isinstance(t, int) or t not in (0, 1, 2):
@@ -211,9 +176,8 @@ def ref_header_broken(data):
 def ref_read_message(data):
     """the reference reading of a datagram as a protocol message, or None if it is not one: canonical bencode
     (keys in increasing order, canonical integers, nothing after the value) of a dictionary with exactly the
-    integer keys of its class, ids of 20 / 48 bytes, and the protocol's shapes: request args = values without
-    dictionaries followed by one flat dictionary carrying protocolVersion 1; response = a value without
-    dictionaries or one flat dictionary; error = two UTF-8 texts"""
+    integer keys of its class, ids of 20 / 48 bytes; request: bytes method, args a list ending in a dictionary that
+    carries protocolVersion 1; response: any value (dictionaries nested anywhere); error: two UTF-8 texts"""
     try:
         d = ref_bdecode(data)
     except (RefError, ValueError):
@@ -232,12 +196,10 @@ def ref_read_message(data):
         if not isinstance(d[3], bytes) or not isinstance(d[4], list) or not d[4]:
             return None
         last = d[4][-1]
-        if not _flat_dict(last) or last.get(b'protocolVersion') != 1 or not all(_no_dict(x) for x in d[4][:-1]):
+        if not isinstance(last, dict) or last.get(b'protocolVersion') != 1:
             return None
         return {'cls': 'request', 'rpc_id': d[1].hex(), 'node_id': d[2].hex(), 'method': jv(d[3]), 'args': jv(d[4])}
     if t == 1:
-        if not (_no_dict(d[3]) or _flat_dict(d[3])):
-            return None
         return {'cls': 'response', 'rpc_id': d[1].hex(), 'node_id': d[2].hex(), 'response': jv(d[3])}
     if not isinstance(d[3], bytes) or not isinstance(d[4], bytes):
         return None
@@ -344,6 +306,18 @@ class FakeTransport:
         pass
 
 
+def expected_failures(before, key, now, capacity):
+    """the failure table after one more failure of [key] at time [now]: an independent statement of what a
+    least-recently-used table of [capacity] entries holds (the sender's record is (previous newest, now); a new
+    sender in a full table takes the place of the OLDEST record, never its own)"""
+    want = dict(before)
+    prev = want.pop(key, [None, None])
+    if key not in before and len(before) >= capacity:
+        want.pop(next(iter(before)))
+    want[key] = [prev[1], now]
+    return want
+
+
 def _compact_tcp(peer):
     """what a findValue answer would hand out for this stored announcement"""
     try:
@@ -376,6 +350,12 @@ class Node:
             self.known.append(p)
         self.proto.data_store.completed_blobs.add(constants.generate_id(300).hex())
         self.task_started = False
+
+    def flood(self, count):
+        """a long-running node: [count] distinct endpoints have each sent one undecodable datagram"""
+        for i in range(count):
+            self.clock[0] = int(self.clock[0]) + 1
+            self.proto.datagram_received(b'x', ('44.%d.%d.%d' % ((i >> 16) & 255, (i >> 8) & 255, i & 255), 2000 + i % 1000))
 
     def rate_good(self, sender):
         """the sender's address has just replied to one of our own requests and has no failure on record:
@@ -449,20 +429,27 @@ class Node:
         queued = after['routing_pending'] != before['routing_pending']
         drained = self.settle() if escaped is None else True
         table_after = self.snapshot()['routing']
-        replies = []
+        replies, reply_texts = [], []
         for d, _a in self.transport.sent[before['sent']:]:
             try:
                 t = ref_bdecode(d).get(0)
             except Exception:  # noqa
                 t = None
             replies.append({1: 'response', 2: 'error', 0: 'request'}.get(t, 'other'))
+            if t == 2:
+                try:
+                    reply_texts.append(ref_bdecode(d)[4])
+                except Exception:  # noqa
+                    reply_texts.append(None)
         key = f'{sender[0]}:{sender[1]}'
-        prev = before['failures'].get(key, [None, None])
-        expect_fail = dict(before['failures'])
-        expect_fail[key] = [prev[1], now]
+        capacity = self.pm._rpc_failures.capacity
+        expect_fail = expected_failures(before['failures'], key, now, capacity)
         return {
+            'capacity': capacity,
             'escaped': escaped,
             'failure_recorded': after['failures'] == expect_fail,
+            'failures_before': before['failures'], 'failures_after': after['failures'], 'now': now,
+            'reply_texts': reply_texts,
             'failures_unchanged': after['failures'] == before['failures'],
             'routing_unchanged': table_after == before['routing'] and not queued,
             'routing_detail': None if (table_after == before['routing'] and not queued) else
@@ -558,7 +545,9 @@ def gen_message(rng, small=False):
 
 
 def gen_value(rng, depth, tail):
-    """a value the codec round-trips: a dict (or a list ending in one) only in tail position"""
+    """a value the codec round-trips: dictionaries and lists nested anywhere ([tail] is no longer a restriction since
+    the decoder consumes a dictionary's end marker, fix 67aa5e2)"""
+    tail = True
     c = rng.random()
     if depth > 3 or c < 0.3:
         return rng.choice([0, 1, -1, 255, -2 ** 63, 10 ** 30, rng.randrange(-10 ** 6, 10 ** 6)])
@@ -765,8 +754,8 @@ BAD_PORTS = [_Raw(b'i0000e'), 0, -1, 65535, 65536, 70000, 2 ** 32, b'5001', b'',
 def store_sequences(rng, count):
     """three-step sequences: (1) peer P announces a blob with a valid store (tcp port 5000); (2) the same identity
     (node id, ip, udp port) sends a store that is NOT valid -- every malformed tcp port (the one-byte mutation
-    i5000e -> i0000e, 0, negative, 65535 and above, bytes, list, dict, missing), a short hash, our own id is not
-    possible here -- or an unrelated invalid request; (3) a third party asks findValue for the blob.
+    i5000e -> i0000e, 0, negative, 65535 and above, bytes, list, dict, missing), a short hash, a hash that is a
+    list / dict of 48 elements with a valid port -- or an unrelated invalid request; (3) a third party asks findValue for the blob.
     yields (kind, prefix, datagram, sender, expect_peers)"""
     for n in range(count):
         in_table = n % 3 == 2
@@ -778,7 +767,7 @@ def store_sequences(rng, count):
         blob, token = rbytes(rng, 48), rbytes(rng, 48)
         valid = _req(rbytes(rng, 20), p_id, b'store', [blob, token, 5000, p_id, 0])
         told = [bytes(int(x) for x in p_addr[0].split('.')) + (5000).to_bytes(2, 'big') + p_id]
-        c = n % (len(BAD_PORTS) + 4)
+        c = n % (len(BAD_PORTS) + 7)
         if c < len(BAD_PORTS):
             bad = _req(rbytes(rng, 20), p_id, b'store', [blob, token, BAD_PORTS[c], p_id, 0])
         elif c == len(BAD_PORTS):
@@ -787,11 +776,62 @@ def store_sequences(rng, count):
             bad = _req(rbytes(rng, 20), p_id, b'store', [rbytes(rng, 47), token, 6000, p_id, 0])  # short hash, other port
         elif c == len(BAD_PORTS) + 2:
             bad = _req(rbytes(rng, 20), p_id, b'stor', [blob, token, 6000, p_id, 0])           # unknown method
+        elif c == len(BAD_PORTS) + 4:
+            bad = _req(rbytes(rng, 20), p_id, b'store', [[0] * 48, token, 6000, p_id, 0])      # hash is a LIST of 48
+        elif c == len(BAD_PORTS) + 5:
+            bad = _req(rbytes(rng, 20), p_id, b'store', [tuple((i, 0) for i in range(48)), token, 6001, p_id, 0])  # a DICT of 48
+        elif c == len(BAD_PORTS) + 6:
+            bad = _req(rbytes(rng, 20), p_id, b'store', [[b'x'] * 48, token, 6002, p_id, 0])
         else:
             bad = mutate(rng, valid, rng.choice([1, 2, 3]))
         find = _req(rbytes(rng, 20), q_id, b'findValue', [blob])
         yield 'sequence:store then invalid store', [(valid, p_addr)], bad, p_addr, None
         yield 'sequence:findValue after invalid store', [(valid, p_addr), (bad, p_addr)], find, q_addr, (blob, told)
+
+
+def echo_alignments():
+    """unknown-method and bad-argument requests whose echoed error text ('Invalid method: ' + name, 16 ASCII bytes
+    first) has a 2-, 3- or 4-byte UTF-8 character at every alignment around BYTE 256 and around CHARACTER 256 of
+    the text, plus texts made of multi-byte characters only"""
+    pv = ((b'protocolVersion', 1),)
+    out = []
+    for ch in ('\u00e9', '\u20ac', '\U0001f600'):
+        n = len(ch.encode())
+        for k in list(range(240 - n - 2, 240 + 3)) + list(range(240 - 2, 240 + 3)):
+            for tail in (ch * 3, ch * 3 + 'zz', ch + 'z' * 20 + ch * 10):
+                out.append(('a' * k + tail).encode())
+        for count in (63, 64, 65, 85, 86, 127, 128, 129, 239, 240, 241, 255, 256, 257, 300):
+            out.append((ch * count).encode())
+            out.append(('b' + ch * count).encode())
+    for name in out:
+        rpc, node = bytes([len(name) % 251]) * 20, bytes([len(name) % 241 + 1]) * 48
+        yield raw_enc(((0, 0), (1, rpc), (2, node), (3, name), (4, [pv])))
+
+
+def gen_repeated_invalid(rng):
+    """(prefix, datagram, sender): 2..5 invalid datagrams from ONE sender, then one more decodable-but-invalid request
+    from it: the sender is already rated bad when the last one arrives"""
+    sender = rng.choice([('5.6.7.8', 4445), ('200.1.1.1', 65535), ('9.9.3.9', 5003), ('5.6.7.9', 4446)])
+    node = constants.generate_id(103) if sender[0] == '9.9.3.9' else rbytes(rng, 48)
+    pv = ((b'protocolVersion', 1),)
+
+    def invalid():
+        c = rng.randrange(6)
+        if c == 0:
+            return _req(rbytes(rng, 20), node, rng.choice([b'pinf', b'', b'Store', 'm\u00e9thode'.encode()]), [])
+        if c == 1:
+            return _req(rbytes(rng, 20), node, b'findNode', [rbytes(rng, 47)])
+        if c == 2:
+            return _req(rbytes(rng, 20), node, b'findValue', [rbytes(rng, 48), 1])[:-3] + b'e'      # mangled tail
+        if c == 3:
+            return _req(rbytes(rng, 20), node, b'store', [rbytes(rng, 48), b't', rng.choice([0, 65535, b'1']), node, 0])
+        if c == 4:
+            return rbytes(rng, rng.randrange(1, 30))                                             # undecodable
+        return _req(rbytes(rng, 20), node, b'findValue', [rbytes(rng, 49)])
+    prefix = [(invalid(), sender) for _ in range(rng.choice([2, 2, 3, 4, 5]))]
+    last = _req(rbytes(rng, 20), node, *rng.choice([(b'findNode', [rbytes(rng, 47)]), (b'pinf', []), (b'store', [rbytes(rng, 48), b't', 0, node, 0]),
+                                                     (b'findValue', [rbytes(rng, 48), ((b'p', b'x'), (b'protocolVersion', 1))][:1] + [])]))
+    return prefix, last, sender
 
 
 def gen_oversized(rng):
@@ -876,17 +916,24 @@ def violation_signature(data, obs, impl):
     return {'datagram': data.hex() if len(data) <= 400 else data[:400].hex() + '...', 'escaped': obs['escaped']}
 
 
-def check_datagram(ctx, data, sender, kind, expect=None, prefix=None, expect_peers=None):
+def check_datagram(ctx, data, sender, kind, expect=None, prefix=None, expect_peers=None, flood=0):
     """one datagram through the real handler, the real decode_datagram and the model; monitor + compare.
     prefix: earlier datagrams [(bytes, sender), ...] of the same sequence, delivered to a FRESH node first;
-    expect_peers: (blob, [compact addresses]) the node must hand out in its findValue answer to this datagram"""
+    expect_peers: (blob, [compact addresses]) the node must hand out in its findValue answer to this datagram;
+    flood: that many distinct endpoints have each sent junk to the fresh node before (a long-running node)"""
     run, model = ctx.run, ctx.model
-    if ctx.fed >= 400 or prefix:
+    if ctx.fed >= 400 or prefix or flood:
         ctx.fresh_node()
     ctx.fed += 1
+    if ctx.node is not getattr(ctx, 'history_node', None):
+        ctx.history_node, ctx.history = ctx.node, []
     case = {'op': 'datagram', 'kind': kind, 'datagram': data.hex(), 'sender': list(sender)}
     if expect:
         case['expect'] = expect
+    if flood:
+        case['flood'] = flood
+        ctx.node.flood(flood)
+        ctx.fed = 10 ** 9
     if prefix:
         case['prefix'] = [[d.hex(), list(a)] for d, a in prefix]
         for d, a in prefix:
@@ -896,6 +943,8 @@ def check_datagram(ctx, data, sender, kind, expect=None, prefix=None, expect_pee
         case['expect_peers'] = [expect_peers[0].hex(), [x.hex() for x in expect_peers[1]]]
     impl = impl_decode(data)
     obs = ctx.node.feed(data, tuple(sender))
+    if not prefix and not flood:
+        ctx.history.append((data, tuple(sender)))
     mod = model.call('decode', fuel_lo=FUEL_LO, fuel_hi=FUEL_HI, data=data.hex(), own=OWN_ID.hex())
     grey = vlib.canon({k: v for k, v in mod['lo'].items() if k != 'request_valid'}) != vlib.canon({k: v for k, v in mod['hi'].items() if k not in ('effect', 'request_valid')})
     m = mod['hi']
@@ -920,13 +969,13 @@ def check_datagram(ctx, data, sender, kind, expect=None, prefix=None, expect_pee
                    obs['replies'] or 'nothing'))
         bad = (f'{what} changed the routing table, its queued additions/removals or the ping queue '
                f'(sender {"rated good" if tuple(sender) in GOOD_SENDERS else "not rated"}; routing task run before '
-               f'comparing): {json.dumps(obs["routing_detail"], default=str)[:900]}')
+               f'comparing): {_show(obs["routing_detail"], 900)}')
     elif 'err' in impl:
         # not decodable as a protocol message: dropped, exactly one failure for the sender, nothing else
         if not obs['failure_recorded']:
             bad = f"undecodable datagram ({impl['err']}): sender's failure was not recorded exactly once"
         elif not obs['store_unchanged']:
-            bad = 'undecodable datagram changed the stored announcements: ' + json.dumps(obs['store_detail'], default=repr)[:500]
+            bad = 'undecodable datagram changed the stored announcements: ' + _show(obs['store_detail'], 500)
         elif not obs['other_unchanged'] or obs['sent']:
             bad = 'undecodable datagram changed other node state or caused a datagram to be sent'
     else:
@@ -934,7 +983,20 @@ def check_datagram(ctx, data, sender, kind, expect=None, prefix=None, expect_pee
         is_store = msg['cls'] == 'request' and msg['method'] == ['b', b'store'.hex()] and request_is_valid(msg)
         if not obs['store_unchanged'] and not is_store:
             bad = (f"a {msg['cls']} datagram that is not a valid store request changed the stored announcements "
-                   f"(deep comparison: peer identity, tcp port, timestamp, compact tcp address): {json.dumps(obs['store_detail'], default=repr)[:700]}")
+                   f"(deep comparison: peer identity, tcp port, timestamp, compact tcp address): {_show(obs['store_detail'], 700)}")
+    if not bad and 'msg' in impl and impl['msg']['cls'] == 'request' and not request_is_valid(impl['msg']):
+        contact = contact_address(impl['msg'], sender)
+        if contact is not None:
+            key = f'{contact[0]}:{contact[1]}'
+            prev = obs['failures_before'].get(key, [None, None])
+            want = expected_failures(obs['failures_before'], key, obs['now'], obs['capacity'])
+            if obs['failures_after'] != want:
+                bad = (f"a request that is not a valid protocol request was not dropped with the sender's failure recorded: "
+                       f"failure record of {key} before {obs['failures_before'].get(key)} (rated "
+                       f"{'bad' if prev[0] is not None and prev[1] is not None else 'not bad'}), after "
+                       f"{obs['failures_after'].get(key)}, expected {want[key]}; replies {obs['replies']}")
+            elif obs['replies'] != ['error']:
+                bad = f"a request that is not a valid protocol request was answered with {obs['replies'] or 'nothing'} instead of one error datagram"
     if not bad and expect_peers:
         told = None
         try:
@@ -955,8 +1017,11 @@ def check_datagram(ctx, data, sender, kind, expect=None, prefix=None, expect_pee
     if not bad and 'msg' in impl and ref_header_broken(data):
         bad = 'a datagram whose header is not that of a protocol message (ids / packet type / required field) was accepted as ' + impl['msg']['cls']
     if not bad and expect == 'drop' and 'msg' in impl:
-        bad = 'corpus datagram that must be dropped was accepted as ' + impl['msg']['cls']
+        bad = ('a truncated datagram' if kind == 'truncation' else 'corpus datagram that must be dropped') + ' was accepted as ' + impl['msg']['cls']
     if bad:
+        if not prefix and not flood and len(ctx.history) > 1 and sum(len(d) for d, _ in ctx.history) < 300000:
+            # the node's state matters: make the replay self-contained with everything this node received before
+            case['prefix'] = [[d.hex(), list(a)] for d, a in ctx.history[:-1]]
         run.violation(case, bad, signature=violation_signature(data, obs, impl))
         ctx.fed = 10 ** 9
         return
@@ -980,6 +1045,18 @@ def check_datagram(ctx, data, sender, kind, expect=None, prefix=None, expect_pee
         want = [] if not usable else ['response'] if m['request_valid'] else ['error']
         run.count('request ' + ('ignored (no usable contact)' if not usable else 'served' if m['request_valid'] else 'answered with an error'))
         run.compare('C17.handle_request.reply', case, obs['replies'], want)
+        # the text of the error reply to an unknown method (valid UTF-8 name, sender is not us)
+        mth = impl['msg']['method']
+        if (usable and mth[0] == 'b' and impl['msg']['node_id'] != OWN_ID.hex()
+                and bytes.fromhex(mth[1]) not in (b'ping', b'store', b'findNode', b'findValue')):
+            name = bytes.fromhex(mth[1])
+            try:
+                name.decode()
+                text = model.call('invalid_method_text', method=name.hex())
+                run.count('error text of an unknown method: %s' % ('cut at 256 characters' if len(name.decode()) > 240 else 'whole'))
+                run.compare('C17.invalid_method_text', case, [t.hex() if t is not None else None for t in obs['reply_texts']], [text])
+            except UnicodeDecodeError:
+                pass
     if 'err' in impl:
         run.compare('C17.datagram_received.effect', case, impl_eff,
                     {'failures': m['effect']['failures'], 'dropped': not m['effect']['processed']})
@@ -1018,6 +1095,22 @@ def ep_applicable(prefix):
     except Exception:  # noqa
         return True
     return not (m['cls'] == 'request' and m['method'] == ['b', b'store'.hex()] and request_is_valid(m))
+
+
+def _show(x, n):
+    try:
+        return repr(x)[:n]
+    except Exception as e:  # noqa  (e.g. an integer beyond the int->str digit limit)
+        return '<unprintable: %s>' % type(e).__name__
+
+
+def contact_address(msg, sender):
+    """the contact a request is attributed to: the routing-table entry with that node id, else the sender's
+    address if make_kademlia_peer accepts it (public IPv4, udp port >= 1024); None: the request is ignored"""
+    if msg['node_id'] in KNOWN_IDS:
+        i = sorted(KNOWN_IDS, key=lambda h: [constants.generate_id(j + 100).hex() for j in range(5)].index(h)).index(msg['node_id'])
+        return (f'9.9.{i}.9', 5000 + i)
+    return tuple(sender) if tuple(sender) in USABLE_SENDERS else None
 
 
 def canon_msg(m):
@@ -1083,6 +1176,27 @@ def check_value(ctx, v):
         run.violation(case, '_bencode differs from the reference bencode', signature={'value': j})
         return
     run.compare('C17.benc', case, impl, {'defined': mod['defined'], 'bytes': mod['bytes']} if mod['defined'] else {'defined': False})
+    if impl['defined']:
+        # the value in NON-tail position of a dictionary and of a list: must read back as itself, also by the
+        # independent strict reader
+        wrapped = {b'a': v, b'b': [v, 7], b'c': 2}
+        enc = bencoding._bencode(wrapped)
+        case2 = {'op': 'value-roundtrip', 'v': j}
+        run.case(case2, nontrivial=True, sample=False)
+        try:
+            back = bencoding.bdecode(enc)
+        except Exception as e:  # noqa
+            back = err_name(e)
+        try:
+            ref_back = ref_bdecode(enc)
+        except RefError as e:
+            ref_back = 'RefError: %s' % e
+        if back != wrapped or ref_back != wrapped:
+            run.violation(case2, f'bdecode(bencode(x)) != x for a value nested in non-tail position: bdecode gave '
+                                 f'{str(back)[:200]}, the reference reader {str(ref_back)[:200]}', signature={'value': j})
+            return
+        m2 = model.call('bdecode', fuel=FUEL_HI, data=enc.hex())
+        run.compare('C17.bdecode_roundtrip', case2, {'ok': jv_sorted(jv(back))}, {'ok': jv_sorted(m2['ok'])} if 'ok' in m2 else m2)
 
 
 def impl_bdecode(data):
@@ -1137,6 +1251,61 @@ def check_utf8_batch(ctx, items, kind):
             impl = False
         run.count(kind + (' valid' if impl else ' invalid'))
         run.compare('C17.utf8_valid', case, impl, mod)
+
+
+def check_lru(ctx, cap, ops):
+    """lbry.utils.LRUCache against the model and against the property of a least-recently-used table"""
+    from lbry.utils import LRUCache
+    run, model = ctx.run, ctx.model
+    case = {'op': 'lru', 'cap': cap, 'ops': ops}
+    c = LRUCache(cap)
+    bad = None
+    for i, o in enumerate(ops):
+        if o[0] == 'set':
+            c.set(o[1], o[2])
+            if c.cache.get(o[1]) != o[2] and not bad:
+                bad = f'after set({o[1]}, {o[2]}) (operation {i}) the cache of capacity {cap} does not hold the key: {list(c.cache.items())}'
+        elif o[0] == 'get':
+            c.get(o[1])
+        else:
+            c.pop(o[1], None)
+        if len(c.cache) > cap and not bad:
+            bad = f'cache of capacity {cap} holds {len(c.cache)} entries after operation {i}'
+    run.case(case, nontrivial=True, sample=False)
+    run.count('lru capacity %d' % cap)
+    if bad:
+        run.violation(case, 'LRUCache (the failure table): ' + bad, signature=case)
+        return
+    run.compare('C17.lru_run', case, [[k, v] for k, v in c.cache.items()], model.call('lru_run', cap=cap, ops=ops))
+
+
+def check_failure_table(ctx, cap, senders):
+    """the real PeerManager.report_failure over a failure table of a small capacity (the table is built from the
+    module constant at construction; here the real class is instantiated with the smaller capacity)"""
+    from lbry.utils import LRUCache
+    run, model = ctx.run, ctx.model
+    case = {'op': 'failure-table', 'cap': cap, 'senders': senders}
+    loop = asyncio.new_event_loop()
+    clock = [0]
+    loop.time = lambda: clock[0]
+    pm = PeerManager(loop)
+    pm._rpc_failures = LRUCache(cap)
+    bad = None
+    for i, a in enumerate(senders):
+        clock[0] = i + 1
+        before = {k[1]: list(v) for k, v in pm._rpc_failures.items()}
+        pm.report_failure('7.7.7.7', a)
+        after = {k[1]: list(v) for k, v in pm._rpc_failures.items()}
+        if after != expected_failures(before, a, i + 1, cap) and not bad:
+            bad = f'failure {i + 1} (sender port {a}) with a table of capacity {cap}: table {before} became {after}'
+    loop.close()
+    run.case(case, nontrivial=True, sample=False)
+    run.count('failure table capacity %d' % cap)
+    if bad:
+        run.violation(case, 'PeerManager.report_failure: ' + bad, signature=case)
+        return
+    run.compare('C17.failures_run', case, [[k[1], v[0], v[1]] for k, v in pm._rpc_failures.items()],
+                model.call('failures_run', cap=cap, senders=senders))
 
 
 def check_compact(ctx, node_id, address, port):
@@ -1259,6 +1428,11 @@ def main(run):
         'garbage into the REAL KademliaProtocol.datagram_received: every truncation and 1..3-byte mutation (replace / '
         'insert / delete, bencode-significant and UTF-8-boundary bytes) of valid datagrams, valid messages re-encoded after '
         'one length prefix or integer token rewritten (sign, whitespace, underscore, zeros, negative, off by one, huge), '
+        'unknown-method requests whose echoed error text has 2/3/4-byte UTF-8 characters at every alignment around byte 256 and '
+        'character 256; 2..5 invalid datagrams from one sender followed by one more invalid request (sender already rated bad); '
+        'a long-running node whose failure table (LRU of lbry.dht.peer.CACHE_SIZE = 16384 records, read at run time) has been '
+        'filled by CACHE_SIZE-1 / CACHE_SIZE / CACHE_SIZE+10 distinct endpoints before junk and invalid requests of new and known '
+        'senders arrive; random operation runs on the real LRUCache and the real report_failure with capacities 1..5; '
         'three-step sequences (valid store from P; then every malformed-port / invalid store or a mutation from the same '
         'identity; then a third party\'s findValue, whose answer must still be P at its announced port), or after one or two FIELD edits (id lengths 19/21/47/49, packet type, missing/extra/duplicated/bytes-keyed fields, method, '
         'args shapes, store argument boundaries, invalid UTF-8 error texts), type-confused dictionaries '
@@ -1281,8 +1455,8 @@ def main(run):
         ep = c.get('expect_peers')
         check_datagram(ctx, bytes.fromhex(c['datagram']), tuple(c.get('sender', SENDERS[0])), 'corpus', c.get('expect'),
                        prefix=[(bytes.fromhex(d), tuple(a)) for d, a in c.get('prefix', [])] or None,
-                       expect_peers=(bytes.fromhex(ep[0]), [bytes.fromhex(x) for x in ep[1]]) if ep else None)
-
+                       expect_peers=(bytes.fromhex(ep[0]), [bytes.fromhex(x) for x in ep[1]]) if ep else None,
+                       flood=int(c.get('flood', 0)))
     for c in load_corpus('messages'):
         check_message(ctx, c['m'], message_from_desc(c['m']), kind='corpus')
     lap('corpus')
@@ -1304,7 +1478,7 @@ def main(run):
     n_trunc = vlib.scaled(T, 14, 200)
     for b in valid[:n_trunc]:
         for cut in range(len(b)):
-            check_datagram(ctx, b[:cut], SENDERS[cut % len(SENDERS)], 'truncation')
+            check_datagram(ctx, b[:cut], SENDERS[cut % len(SENDERS)], 'truncation', expect='drop')
     for i in range(vlib.scaled(T, 7000, 300000)):
         b = valid[rng.randrange(len(valid))]
         k = rng.choice([1, 1, 2, 3])
@@ -1328,6 +1502,30 @@ def main(run):
         if kind.startswith('sequence:findValue') and not ep_applicable(prefix):
             ep = None
         check_datagram(ctx, d, sender, kind, prefix=prefix, expect_peers=ep)
+    for d in echo_alignments():
+        check_datagram(ctx, d, SENDERS[0] if len(d) % 2 else ('200.1.1.1', 65535), 'echoed-text alignment')
+    for i in range(vlib.scaled(T, 60, 2000)):
+        prefix, d, sender = gen_repeated_invalid(rng)
+        check_datagram(ctx, d, sender, 'sequence:invalid after %d invalid' % len(prefix), prefix=prefix)
+    # -- a long-running node: the failure table (an LRU of lbry.dht.peer.CACHE_SIZE records) is full -----------------
+    import lbry.dht.peer as peer_module
+    cap = peer_module.CACHE_SIZE
+    pinf = _req(b'q' * 20, b'n' * 48, b'pinf', [])
+    new, new2 = ('5.6.7.8', 4445), ('200.1.1.1', 65535)
+    for fl, d, sender, prefix in ([(cap + 10, b'junk', new, None), (cap + 10, pinf, new, None), (cap, b'junk', new, None),
+                                   (cap - 1, b'junk', new, None), (cap + 10, b'more junk', new, [(b'junk', new), (pinf, new2)]),
+                                   (cap + 10, b'junk', ('44.0.%d.%d' % ((cap + 9) >> 8 & 255, (cap + 9) & 255), 2000 + (cap + 9) % 1000), None)]
+                                  if T == 'quick' else
+                                  [(f, d, sd, None) for f in (cap - 2, cap - 1, cap, cap + 1, cap + 10, 2 * cap + 3)
+                                   for d in (b'junk', pinf, b'd1:0i0ee') for sd in (new, new2, ('44.0.0.5', 2005))]):
+        check_datagram(ctx, d, sender, 'long-running node (%d endpoints failed before)' % fl, prefix=prefix, flood=fl)
+    for i in range(vlib.scaled(T, 300, 6000)):
+        c = rng.choice([1, 1, 2, 3, 4, 5])
+        ops = [rng.choice([['set', rng.randrange(7), rng.randrange(100)]] * 3 + [['get', rng.randrange(7)], ['pop', rng.randrange(7)]])
+               for _ in range(rng.randrange(1, 25))]
+        check_lru(ctx, c, ops)
+        check_failure_table(ctx, rng.choice([1, 2, 3, 4]), [rng.randrange(6) for _ in range(rng.randrange(1, 20))])
+    lap('long-running node + lru')
     for i in range(vlib.scaled(T, 60, 1500)):
         check_datagram(ctx, gen_oversized(rng), rng.choice(SENDERS), 'oversized')
     lap('oversized')
@@ -1436,7 +1634,12 @@ def replay(run, case):
         ep = case.get('expect_peers')
         check_datagram(ctx, bytes.fromhex(case['datagram']), tuple(case['sender']), case.get('kind', 'replay'), case.get('expect'),
                        prefix=[(bytes.fromhex(d), tuple(a)) for d, a in case.get('prefix', [])] or None,
-                       expect_peers=(bytes.fromhex(ep[0]), [bytes.fromhex(x) for x in ep[1]]) if ep else None)
+                       expect_peers=(bytes.fromhex(ep[0]), [bytes.fromhex(x) for x in ep[1]]) if ep else None,
+                       flood=int(case.get('flood', 0)))
+    elif op == 'lru':
+        check_lru(ctx, int(case['cap']), case['ops'])
+    elif op == 'failure-table':
+        check_failure_table(ctx, int(case['cap']), case['senders'])
     elif op == 'message':
         desc = case['m']
         obj = message_from_desc(desc)
